@@ -13,6 +13,7 @@ mod world;
 mod fam;
 
 mod common;
+mod s08;
 mod s11;
 mod s14;
 mod s15;
@@ -23,7 +24,7 @@ use engine::{BatchOpts, Prop};
 use serde_json::json;
 
 fn all_props() -> Vec<&'static dyn Prop> {
-    vec![&s11::C11S, &s14::C14, &s15::C15, &s16::C16]
+    vec![&s08::C08S, &s11::C11S, &s14::C14, &s15::C15, &s16::C16]
 }
 
 fn find(id: &str) -> &'static dyn Prop {
